@@ -8,7 +8,7 @@ BUDGET = {
     "quick": dict(shards=16, cases=960, deadline=80),
     "thorough": dict(shards=16, cases=16000, deadline=1500),
 }
-DECIDING = ["bms.write"]
+DECIDING = ["bms.write", "fileio.write_file"]
 RULE = ("In-memory BMS charts for the five layouts: 1..40 tempo points on measure lines (first at 0 ms; bpm with <=3 decimals and "
         "arbitrary floats; one 1295-point case in thorough), hits and holds on every lane at k/d beats for d in 1..96 (incl. measures "
         "whose denominators have an LCM >= 100, forcing several lines per measure and channel) and at off-grid millisecond times, with "
@@ -39,7 +39,7 @@ def gen(rng, tier, k):
     layout = rng.choice(list(LAYOUTS))
     cols = sorted(set(LAYOUTS[layout].values()))
     n_meas = rng.randint(1, 6)
-    n_t = {"many_tempo": rng.choice([10, 25, 40])}.get(cls, rng.choice([1, 1, 2, 3, 5]))
+    n_t = {"many_tempo": rng.choice([10, 25, 40]), "unsorted": rng.choice([2, 3, 5])}.get(cls, rng.choice([1, 1, 2, 3, 5]))
     if tier == "thorough" and k % 4000 == 17:
         n_t = 1295
     meas = sorted({0} | {rng.randint(1, max(n_meas, n_t * 2)) for _ in range(n_t - 1)})
@@ -107,7 +107,10 @@ def build(case):
 
     tl = RefBeats(F(0), [(F(4 * m), F(v)) for m, v in case["tempo"]])
     m = BMSMap()
-    m.bpms = BMSBpmList([BMSBpm(float(tl.ms_of_beat(4 * mm)), float(v)) for mm, v in case["tempo"]])
+    rows_ = [BMSBpm(float(tl.ms_of_beat(4 * mm)), float(v)) for mm, v in case["tempo"]]
+    if case["cls"] == "unsorted" and len(rows_) > 1:
+        rows_ = rows_[1:] + rows_[:1]  # tempo rows not stored in time order (e.g. a point appended later)
+    m.bpms = BMSBpmList(rows_)
     hits, holds = [], []
     for c, b0, b1, s in case["objects"]:
         t0 = float(tl.ms_of_beat(F(b0)))
@@ -144,3 +147,6 @@ def run(ctx, case):
         m.write(config)
     except Exception:
         pass
+    if ctx.cur_k is not None and ctx.cur_k % 3 == 1:
+        from rv.monitors import fileio
+        fileio.check_write_file(ctx, "C05", m, args=(config,), kind="bytes")
